@@ -1181,6 +1181,8 @@ func (d *HAMTDirectory) needsToSwitchToBasicDir(ctx context.Context, name string
 		if err != nil {
 			return false, err
 		}
+		// MakeLink leaves the name empty: the new entry is stored under `name`.
+		link.Name = name
 		operationSizeChange += d.linkSizeFor(link)
 	}
 
